@@ -748,6 +748,7 @@ def run(ctx):
     thorough = ctx.tier == "thorough"
     budget = 42 if ctx.tier == "quick" else 480
     try:
+        t_start = ctx.elapsed()
         recount, hf_re = probe_recount(ctx, env)
         ctx.note("tree variant: recount on limits re-entry = %s" % recount)
         # corpus: the two known-finding witnesses, the repaired one, hand-written flows
@@ -757,6 +758,7 @@ def run(ctx):
         check_hflow(ctx, env, hf_re, "corpus:limits-reentry", thorough, recount)
         for name, fl in corpus_flows().items():
             check_flow(ctx, env, fl, "corpus:" + name, thorough)
+        ctx.note("build+audit %.0fs, corpus %.0fs" % (t_start, ctx.elapsed() - t_start))
         rng = ctx.rng
         k = 0
         while ctx.elapsed() < budget and k < ctx.n(400, 4000):
